@@ -121,7 +121,11 @@ Inductive case :=
   (* Resolver.Resolve walking from the root hints: the responses the zones' servers served, in order, and the outcome; what
      the delegation cache then holds per zone (DS set as (type, rdata id) pairs); the same question resolved again *)
 | CaseDescent (d : envd) (qname : name) (qtype : N) (cd : bool) (served1 : list msg) (o1 : obs)
-              (cache : list (name * option (list (N * N)))) (served2 : list msg) (o2 : obs).
+              (cache : list (name * option (list (N * N)))) (served2 : list msg) (o2 : obs)
+  (* the same with QNAME minimisation as configured: cfg.QnameMinLevel, the nomin argument of Resolve, the ids of the
+     minimised name errors that are eligible for the RFC 8020 cut; every served message carries the question it answered *)
+| CaseDescentMin (d : envd) (qmin : N) (nomin : bool) (aggr : list N) (qname : name) (qtype : N) (cd : bool)
+              (served1 : list msg) (o1 : obs) (cache : list (name * option (list (N * N)))) (served2 : list msg) (o2 : obs).
 
 Definition opt_err_eqb (a b : option err) : bool :=
   match a, b with
@@ -212,6 +216,17 @@ Definition check_case (c : case) : bool :=
                          | None, None => true
                          | _, _ => false end) cache &&
       (* the second walk starts at the deepest cached cut with the DS set filed there *)
+      obs_eqb (dr_out r2) o2 && (dr_left r2 =? 0)%nat
+  | CaseDescentMin d qmin nomin aggr q t cd s1 o1 cache s2 o2 =>
+      let E := env_of d in
+      let ag := fun id => existsb (N.eqb id) aggr in
+      let r1 := resolve_from_cache_m E ag (N.to_nat qmin) q t cd nomin [] s1 in
+      let r2 := resolve_from_cache_m E ag (N.to_nat qmin) q t cd nomin (dr_cache r1) s2 in
+      obs_eqb (dr_out r1) o1 && (dr_left r1 =? 0)%nat &&
+      forallb (fun zo => match dc_find (dr_cache r1) (fst zo), snd zo with
+                         | Some ds, Some l => pairs_eqb (ids ds) l
+                         | None, None => true
+                         | _, _ => false end) cache &&
       obs_eqb (dr_out r2) o2 && (dr_left r2 =? 0)%nat
   end.
 
@@ -368,7 +383,7 @@ Definition spec_case (c : case) : bool :=
   | CaseFiled v cd p0 p1 =>
       (* a validating (CD=0) reader only ever meets a bit the resolver set for a CD=0 request *)
       match p0 with Some a => negb cd && Bool.eqb a v | None => cd end
-  | CaseDescent d q t cd s1 o1 cache s2 o2 =>
+  | CaseDescent d q t cd s1 o1 cache s2 o2 | CaseDescentMin d _ _ _ q t cd s1 o1 cache s2 o2 =>
       let ad_of := fun o => match o with OAccept ad _ _ _ => ad | OFail _ => false end in
       let no_data := fun o => match o with OFail _ => true | OAccept _ _ [] [] => true | OAccept _ _ _ _ => false end in
       (* AD on the reply of a walk from the root: the client did not set CD, an anchor exists, and EVERY referral crossed
